@@ -83,6 +83,7 @@ const (
 	LUSafe
 	LUOptLeaf
 	LUBadProto
+	LUMoved
 	LUZeroA
 	LUZeroB
 	// barriers: leaves with a hidden error
@@ -301,6 +302,8 @@ func init() {
 		build: func(n *Node, _, _ []error) error { return &ULeafSafe{SafePart: n.S[0].V, UnsafePart: n.S[1].V} }})
 	def(LUBadProto, KindInfo{Slots: "U", Name: "uLeafBadProto", Groups: GUser, Weight: 2,
 		build: func(n *Node, _, _ []error) error { return &ULeafBadProto{Msg: n.S[0].V} }})
+	def(LUMoved, KindInfo{Slots: "U", Name: "uMovedLeaf", Groups: GUser, Weight: 3,
+		build: func(n *Node, _, _ []error) error { return &MovedLeaf2{Msg: n.S[0].V} }})
 	def(LUZeroA, KindInfo{Name: "uZeroA", Groups: GUser, Weight: 2,
 		build: func(n *Node, _, _ []error) error { return &UZeroA{} }})
 	def(LUZeroB, KindInfo{Name: "uZeroB", Groups: GUser, Weight: 2,
